@@ -77,6 +77,10 @@ func genCase(t *rapid.T) Case {
 			}
 			a.Closes = append(a.Closes, x)
 		}
+		if a.Old < n && rapid.IntRange(0, 5).Draw(t, "missing_quote") == 3 {
+			// a missing quote somewhere in the window (0, as a vendor's placeholder)
+			a.Closes[rapid.IntRange(a.Old, n-1).Draw(t, "missing_at")%n] = 0
+		}
 		c.Assets = append(c.Assets, a)
 	}
 	nw := rapid.IntRange(1, 5).Draw(t, "scripted")
@@ -239,6 +243,29 @@ func check(c Case) engine.Outcome {
 			want[a.Name+" | "+strategies[i].Name()] = evaluate(s, inWin[a.Name])
 		}
 	}
+	// the direct evaluation itself: its outcome is the all-in/all-out simulation of ITS actions on
+	// the in-window closings (whatever those are: a missing quote is repository content too)
+	for _, a := range c.Assets {
+		for _, s := range strategies {
+			d := want[a.Name+" | "+s.Name()]
+			if len(d.actions) != len(inWin[a.Name]) {
+				continue
+			}
+			balance, shares, out := 1.0, 0.0, 0.0
+			for i, sn := range inWin[a.Name] {
+				if balance > 0 && d.actions[i] == strategy.Buy {
+					shares, balance = balance/sn.Close, 0
+				} else if shares > 0 && d.actions[i] == strategy.Sell {
+					balance, shares = shares*sn.Close, 0
+				}
+				out = balance + shares*sn.Close - 1
+			}
+			if len(d.actions) > 0 && !(out == d.outcome || math.Abs(out-d.outcome) <= 1e-12*math.Max(1, math.Abs(out)) || (out != out && d.outcome != d.outcome)) {
+				o.Failf("asset %s strategy %s: evaluating the strategy on the %d in-window snapshots gives outcome %v, the all-in/all-out simulation of its actions on their closings gives %v", a.Name, s.Name(), len(d.actions), d.outcome, out)
+				return o
+			}
+		}
+	}
 	var rep backtest.Report
 	rec := &recording{}
 	data := backtest.NewDataReport()
@@ -375,6 +402,7 @@ func check(c Case) engine.Outcome {
 			}
 		default:
 			best := map[string]float64{}
+		anyNaN := false
 			for _, a := range c.Assets {
 				rows, err := parseRows(filepath.Join(dir, a.Name+".html"))
 				if err != nil {
@@ -387,6 +415,12 @@ func check(c Case) engine.Outcome {
 				}
 				seen := map[string]bool{}
 				maxWant := math.Inf(-1)
+				assetNaN := false
+				for _, r := range rows {
+					if r.outcome != r.outcome {
+						assetNaN, anyNaN = true, true // no order is defined among undefined outcomes
+					}
+				}
 				for i, r := range rows {
 					w, ok := want[a.Name+" | "+r.name]
 					if !ok || seen[r.name] {
@@ -394,11 +428,11 @@ func check(c Case) engine.Outcome {
 						return o
 					}
 					seen[r.name] = true
-					if pw, _ := strconv.ParseFloat(fmt.Sprintf("%.2f", w.outcome*100), 64); pw != r.outcome {
+					if pw, _ := strconv.ParseFloat(fmt.Sprintf("%.2f", w.outcome*100), 64); pw != r.outcome && !(pw != pw && r.outcome != r.outcome) {
 						o.Failf("HTML report of %s: %s shows %.2f%%, direct evaluation gives %.2f%%", a.Name, r.name, r.outcome, w.outcome*100)
 						return o
 					}
-					if i > 0 && r.outcome > rows[i-1].outcome {
+					if i > 0 && !assetNaN && r.outcome > rows[i-1].outcome {
 						o.Failf("HTML report of %s: ranking not in non-increasing outcome order: row %d (%s) %.2f%% comes after %.2f%% (%d workers)", a.Name, i, r.name, r.outcome, rows[i-1].outcome, c.Workers)
 						return o
 					}
@@ -406,7 +440,7 @@ func check(c Case) engine.Outcome {
 						maxWant = w.outcome * 100
 					}
 				}
-				if pw, _ := strconv.ParseFloat(fmt.Sprintf("%.2f", maxWant), 64); rows[0].outcome != pw {
+				if pw, _ := strconv.ParseFloat(fmt.Sprintf("%.2f", maxWant), 64); !assetNaN && rows[0].outcome != pw {
 					o.Failf("HTML report of %s: the entry presented as best shows %.2f%%, the maximal outcome is %.2f%%", a.Name, rows[0].outcome, maxWant)
 					return o
 				}
@@ -437,11 +471,11 @@ func check(c Case) engine.Outcome {
 					return o
 				}
 				seen[r.name] = true
-				if r.outcome != b {
+				if r.outcome != b && !anyNaN {
 					o.Failf("index.html: asset %s shows %.2f%%, its best result is %.2f%%", r.name, r.outcome, b)
 					return o
 				}
-				if i > 0 && r.outcome > rows[i-1].outcome {
+				if i > 0 && !anyNaN && r.outcome > rows[i-1].outcome {
 					o.Failf("index.html: ranking not in non-increasing order: row %d (%s) %.2f%% after %.2f%%", i, r.name, r.outcome, rows[i-1].outcome)
 					return o
 				}
